@@ -1,6 +1,6 @@
 #!/bin/sh
 # seedtest.sh <seed dir> <PID> [tier] — apply a seeded change to /repo, run the check, undo it.
-D="$1"; PID="$2"; TIER="${3:-quick}"
+D="$(cd "$1" && pwd)"; PID="$2"; TIER="${3:-quick}"
 cd /verif
 git -C /repo apply "$D/patch.diff" || { echo "patch does not apply"; exit 2; }
 ./check "$PID" --tier "$TIER" 2>/tmp/seedtest_err.log | tail -5
